@@ -4,7 +4,9 @@ import (
 	"context"
 	"fmt"
 	"io"
+	"reflect"
 	"sync/atomic"
+	"time"
 
 	"tunnox-core/internal/client/tunnel"
 	"tunnox-core/internal/utils/iocopy"
@@ -17,6 +19,19 @@ var tunSeq atomic.Int64
 // through tunnel.Tunnel (Start -> runDataCopy -> Close -> OnClosed). The returned channel yields
 // the Returned event; cleanup releases whatever the tunnel variant holds.
 func startRelay(via, proto string, local, tun io.ReadWriteCloser) (<-chan fw.Event, func()) {
+	return startRelayIdle(via, proto, local, tun, 0)
+}
+
+// idleConfigurable: tunnel.TunnelConfig has the IdleTimeout field (patch C12-4). Looked up by
+// reflection so that the driver also builds against a tree without it; there the idle timeout
+// is the fixed 5 minutes and the idle-monitor behaviours run in real time (thorough tier only).
+func idleConfigurable() bool {
+	f, ok := reflect.TypeOf(tunnel.TunnelConfig{}).FieldByName("IdleTimeout")
+	return ok && f.Type == reflect.TypeOf(time.Duration(0))
+}
+
+// startRelayIdle: as startRelay; idle > 0 sets the tunnel's idle timeout (via "tunnel" only).
+func startRelayIdle(via, proto string, local, tun io.ReadWriteCloser, idle time.Duration) (<-chan fw.Event, func()) {
 	done := make(chan fw.Event, 4)
 	if via != "tunnel" {
 		go func() {
@@ -35,7 +50,7 @@ func startRelay(via, proto string, local, tun io.ReadWriteCloser) (<-chan fw.Eve
 	mgr := tunnel.NewTunnelManager(ctx, tunnel.TunnelRoleListen)
 	id := fmt.Sprintf("c12-%d", tunSeq.Add(1))
 	var t *tunnel.Tunnel
-	t = tunnel.NewTunnel(&tunnel.TunnelConfig{
+	cfg := &tunnel.TunnelConfig{
 		ID: id, MappingID: "m-c12", Role: tunnel.TunnelRoleListen, Protocol: proto,
 		LocalConn: local, TunnelRWC: tun, Manager: mgr,
 		OnClosed: func(reason tunnel.CloseReason, err error) {
@@ -46,7 +61,11 @@ func startRelay(via, proto string, local, tun io.ReadWriteCloser) (<-chan fw.Eve
 			default:
 			}
 		},
-	})
+	}
+	if idle > 0 && idleConfigurable() {
+		reflect.ValueOf(cfg).Elem().FieldByName("IdleTimeout").SetInt(int64(idle))
+	}
+	t = tunnel.NewTunnel(cfg)
 	if err := mgr.RegisterTunnel(t); err != nil {
 		panic(err)
 	}
